@@ -9,6 +9,7 @@ class C03(OptCheck):
     prop = "C03"
     vfiles = ["Properties/Properties_C03.v"]
     corpus = "C03.txt"
+    oracle_args = ("oracle", "C03")
     design_ref = "DESIGN.md section 6, C03"
     technique = "Coq proof: the result value of every option kind is the first available of [command line; non-empty bound environment value; default], provided iff command line or environment (on the spec's assignment, transferred by refinement) + exhaustive matrix differential run"
     level_text = ""
